@@ -145,23 +145,40 @@ namespace bloch::update {
             out << toSeconds(cache.lastNotified) << "\n";
         }
 
+        // What may follow the numeric components: nothing, or a pre-release / build suffix
+        // ("-rc1", "-14-g37b3341", "+meta") made of letters, digits, '.', '-' and '+'.
+        bool isVersionSuffix(const std::string& v, size_t pos) {
+            if (pos >= v.size())
+                return true;
+            if (v[pos] != '-' && v[pos] != '+')
+                return false;
+            for (size_t i = pos + 1; i < v.size(); ++i) {
+                unsigned char c = static_cast<unsigned char>(v[i]);
+                if (!std::isalnum(c) && c != '.' && c != '-' && c != '+')
+                    return false;
+            }
+            return true;
+        }
+
+        // [v]MAJOR[.MINOR[.PATCH]][suffix]; anything else (a commit hash such as "37b3341",
+        // "2.x", "1..2", a fourth component, trailing text) is not a version: valid stays false.
         SemVer parseSemVer(const std::string& version) {
             SemVer sem;
-            if (version.empty())
-                return sem;
             std::string v = version;
+            // a tag read from a file or an HTTP body may end in white space
+            while (!v.empty() && std::isspace(static_cast<unsigned char>(v.back()))) v.pop_back();
             if (!v.empty() && v.front() == 'v')
                 v.erase(v.begin());
 
             size_t pos = 0;
             int idx = 0;
-            while (pos < v.size() && idx < 3) {
+            while (idx < 3) {
                 size_t start = pos;
                 while (pos < v.size() && std::isdigit(static_cast<unsigned char>(v[pos]))) {
                     ++pos;
                 }
                 if (start == pos)
-                    break;
+                    return SemVer{};  // a component is expected here
                 int value = 0;
                 try {
                     value = std::stoi(v.substr(start, pos - start));
@@ -175,12 +192,20 @@ namespace bloch::update {
                     sem.minor = value;
                 else
                     sem.patch = value;
-                sem.valid = true;
                 ++idx;
-                if (pos >= v.size() || v[pos] != '.')
+                if (pos >= v.size())
                     break;
-                ++pos;
+                if (v[pos] == '.') {
+                    if (idx == 3)
+                        return SemVer{};  // a fourth component
+                    ++pos;
+                    continue;
+                }
+                if (!isVersionSuffix(v, pos))
+                    return SemVer{};
+                break;
             }
+            sem.valid = true;
             return sem;
         }
 
